@@ -14,7 +14,9 @@ From GT Require Import Base.UTree Spec.Obs Model.Reroot Model.Outgroup Spec.Unro
      Proofs.OutgroupMidpoint Proofs.OutgroupMidDist Proofs.OutgroupMlp Proofs.OutgroupHalf
      Proofs.OutgroupHalfMain Proofs.OutgroupSplits Proofs.OutgroupSplitsMain Proofs.OutgroupMidErr
      Proofs.OutgroupTies Proofs.OutgroupWitness Proofs.OracleC05 Proofs.OutgroupRemoveSplits
-     Proofs.OutgroupTwoTip Proofs.OutgroupNeg.
+     Proofs.OutgroupTwoTip Proofs.OutgroupNeg
+     Proofs.OracleSup Proofs.OracleIndex Proofs.OracleMid Proofs.OracleSide Proofs.OracleOut Proofs.OracleRm Proofs.OracleAll.
+From GT Require Import Model.Index Proofs.IndexSplit Judge.C05.
 From GT Require Import Base.Sexp Judge.Common.
 Import ListNotations.
 Local Close Scope Q_scope.
@@ -780,3 +782,90 @@ Theorem C05_outgroup_negative_length_refuted :
     ~ orel split_weq (find_split k (usplits t')) (find_split k (usplits (unroot t))).
 Proof. exact outgroup_negative_length_refuted. Qed.
 Print Assumptions C05_outgroup_negative_length_refuted.
+
+(** * (m) the WHOLE oracle of Judge/C05.v accepts the model, for all six operations.
+    Trees: well-formed, root with >= 2 neighbours, distinct tip names; for outgroup also no empty
+    tip name (the judge takes the requested names that are tips, the code ignores an empty name);
+    where the oracle looks at lengths / supports: every branch with a length >= 0, supports of the
+    two root branches absent or >= 0.  The index clause ([index_ok_data]: tip-name index = tip set,
+    ids = ranks, bitsets of that width) is evaluated on [tables_obs t'], the observation of the
+    tables that ReinitIndexes computes on the result (C04: [index_tables]). *)
+
+(** the index clause accepts the tables of any good tree *)
+Theorem C05_index_ok_tables :
+  forall t', good t' ->
+    let '(idx, st, bs) := tables_obs t' in index_ok_data t' idx st bs = None.
+Proof. exact index_ok_tables. Qed.
+Print Assumptions C05_index_ok_tables.
+
+(** the boolean test "one side of a split" of the judge is the statement used by the theorems *)
+Theorem C05_is_side_side_of :
+  forall t G, NoDup (leaves t) -> NoDup G -> incl G (leaves t) ->
+    is_side t (sset G) = true -> side_of t G.
+Proof. exact is_side_side_of. Qed.
+Print Assumptions C05_is_side_side_of.
+
+Theorem C05_side_of_is_side :
+  forall t G, NoDup (leaves t) -> side_of t G -> G <> [] -> incl G (leaves t) ->
+    (exists x, In x (leaves t) /\ ~ In x G) -> is_side t (sset G) = true.
+Proof. exact side_of_is_side. Qed.
+Print Assumptions C05_side_of_is_side.
+
+(** UnRoot keeps the supports of the internal splits (root-branch supports absent or >= 0) *)
+Theorem C05_unroot_usplits_sup :
+  forall t,
+    wf t = true -> rooted t = true -> root_has_inner_child t = true -> NoDup (leaves t) ->
+    (forall p, In p (kids t) -> good_sup (fst p)) ->
+    forall k, orel (split_seq (length (tipset t))) (find_split k (usplits (unroot t))) (find_split k (usplits t)).
+Proof. exact unroot_usplits_sup. Qed.
+Print Assumptions C05_unroot_usplits_sup.
+
+Theorem C05_oracle_reroot_accepts :
+  forall t i t',
+    wf t = true -> 2 <= degree t -> NoDup (leaves t) -> reroot t i = Ok t' ->
+    same_tree_obs t t' = None /\
+    (let '(idx, st, bs) := tables_obs t' in index_ok_data t' idx st bs = None).
+Proof. exact oracle_reroot_accepts. Qed.
+Print Assumptions C05_oracle_reroot_accepts.
+
+Theorem C05_oracle_unroot_accepts :
+  forall t,
+    wf t = true -> 2 <= degree t -> (rooted t = true -> root_has_inner_child t = true) -> NoDup (leaves t) ->
+    same_tree_obs t (unroot t) = None /\
+    (let '(idx, st, bs) := tables_obs (unroot t) in index_ok_data (unroot t) idx st bs = None).
+Proof. exact oracle_unroot_accepts. Qed.
+Print Assumptions C05_oracle_unroot_accepts.
+
+Theorem C05_oracle_outgroup_accepts :
+  forall strict t names t',
+    wf t = true -> 2 <= degree t -> (rooted t = true -> root_has_inner_child t = true) ->
+    NoDup (leaves t) -> ~ In ""%string (leaves t) ->
+    (forall x, In x (bsplits t) -> (0 <= elen (fst (fst x)))%Q) ->
+    (forall p, In p (kids t) -> good_sup (fst p)) ->
+    reroot_outgroup false strict t names = Ok t' ->
+    oracle_outgroup_ok false strict t t' names = None /\
+    (let '(idx, st, bs) := tables_obs t' in index_ok_data t' idx st bs = None).
+Proof. exact oracle_outgroup_accepts. Qed.
+Print Assumptions C05_oracle_outgroup_accepts.
+
+Theorem C05_oracle_outgroup_remove_accepts :
+  forall strict t names t',
+    wf t = true -> 2 <= degree t -> (rooted t = true -> root_has_inner_child t = true) ->
+    NoDup (leaves t) -> ~ In ""%string (leaves t) ->
+    reroot_outgroup true strict t names = Ok t' ->
+    oracle_outgroup_ok true strict t t' names = None /\
+    (let '(idx, st, bs) := tables_obs t' in index_ok_data t' idx st bs = None).
+Proof. exact oracle_outgroup_remove_accepts. Qed.
+Print Assumptions C05_oracle_outgroup_remove_accepts.
+
+Theorem C05_oracle_midpoint_accepts :
+  forall t t',
+    wf t = true -> 2 <= degree t -> (rooted t = true -> root_has_inner_child t = true) ->
+    NoDup (leaves t) ->
+    (forall x, In x (bsplits t) -> (0 <= elen (fst (fst x)))%Q) ->
+    (forall p, In p (kids t) -> good_sup (fst p)) ->
+    reroot_midpoint t = Ok t' ->
+    oracle_midpoint_ok t t' = None /\
+    (let '(idx, st, bs) := tables_obs t' in index_ok_data t' idx st bs = None).
+Proof. exact oracle_midpoint_accepts. Qed.
+Print Assumptions C05_oracle_midpoint_accepts.
